@@ -951,7 +951,11 @@ func run(cs Case) ev.Outcome {
 				again := runMesh(cs, stallConfirm, capTotal)
 				if again.kind != "timeout" {
 					col.Count("timeouts-not-reproduced", 1)
-					col.Note("a mesh hit the watchdog once and did not hang again on re-execution (counted as skipped, schedule: %s)", key)
+					first := r.msg
+					if len(first) > 1500 {
+						first = first[:1500] + "..."
+					}
+					col.Note("a mesh hit the watchdog once (%s) and did not hang again on re-execution; counted as skipped. schedule: %s first execution: %s", r.sig, key, first)
 					return ev.Outcome{Skip: "watchdog hit not reproduced"}
 				}
 			}
